@@ -50,8 +50,11 @@ class C10(Check):
             prof = ['default', 'junos', 'alu', 'sros'][i % 4]
             out.append({'kind': 'reply', 'profile': prof, 'tree': gen_reply_tree(rng, pis=(rng.random() < 0.3)), 'decl': rng.random() < 0.4,
                         'op': rng.choice(['get', 'get_config', 'rpc'])})
-        out.append({'kind': 'huge', 'what': 'text', 'size': 11 * 1024 * 1024 if tier == 'thorough' else 10 * 1024 * 1024 + 5000})
-        out.append({'kind': 'huge', 'what': 'depth', 'size': 300})
+        # huge-tree support switched on for the manager: every profile, also those that post-process the reply (their transforms
+        # must not fall back to a parser with the default limits)
+        for prof in ('default', 'junos', 'alu', 'sros'):
+            out.append({'kind': 'huge', 'what': 'text', 'profile': prof, 'size': 11 * 1024 * 1024 if tier == 'thorough' else 10 * 1024 * 1024 + 5000})
+            out.append({'kind': 'huge', 'what': 'depth', 'profile': prof, 'size': 300})
         out.append({'kind': 'schema'})
         # get-schema through the reply OBJECT (async mode keeps the GetSchemaReply) and through the synchronous path, for the profiles
         # with a reply transform or a get-schema workaround; Junos also with its non-compliant <data> in the base namespace
@@ -79,11 +82,12 @@ class C10(Check):
                 body = '<data><t>%s</t></data>' % ('x' * case['size'])
             else:
                 body = '<data>' + ''.join('<d%d>' % i for i in range(case['size'])) + 'v' + ''.join('</d%d>' % i for i in reversed(range(case['size']))) + '</data>'
-            m, s, dh = make_manager(responder=lambda req, mid: '<rpc-reply message-id="%s" xmlns="%s">%s</rpc-reply>' % (mid, BASE, body), raise_mode=0)
+            m, s, dh = make_manager(profile=case.get('profile', 'default'), responder=lambda req, mid: '<rpc-reply message-id="%s" xmlns="%s">%s</rpc-reply>' % (mid, BASE, body), raise_mode=0)
             m.huge_tree = True
             try:
                 r = m.get()
-                d = r.data_ele
+                if hasattr(r, 'data_ele'):
+                    d = r.data_ele
                 return {'ok': True, 'len': len(r.data_xml)}
             except Exception as e:
                 return {'ok': False, 'exc': type(e).__name__}
